@@ -50,6 +50,14 @@ Theorem C09_pong_after_ping :
 Proof. exact pong_expected. Qed.
 Print Assumptions C09_pong_after_ping.
 
+(* ---- frames: over ALL runs an empty frame or a frame with an undecodable rest leaves the
+   connection closed, however many commands were decoded (and answered) before the bad part ---- *)
+Theorem C09_bad_frame_closes :
+  forall g ls s os,
+    exec g init ls = Some (s, os) -> frames_ok false ls os = true.
+Proof. exact exec_frames_ok_init. Qed.
+Print Assumptions C09_bad_frame_closes.
+
 (* ---- OnCommandRead hook: for ALL states and dispatched commands ---- *)
 
 (* a client error from the hook is answered with exactly that error reply (also for a send,
